@@ -15,25 +15,92 @@ def gen_stall(r, tier):
     return ops
 
 
+def gen_attach(r, tier):
+    """the minimum as start-up installs it: a neverStop hwmon fan with any combination of configured minPwm / startPwm /
+    maxPwm, limits then derived from measured curve data (`w.attach`), then regulation with stall episodes"""
+    import re
+    n = 150 if tier == "quick" else 4000
+    ops = []
+    for _ in range(n):
+        case = streams.gen_world_case(r, n_events=40, faults=False, kind="hwmon", ns=1, stall_bias=0.6,
+                                      loop=r.pick([None, "loop=direct m=-"]))
+        new = re.sub(r" (minp|maxp|startp|cmin|cmax|cstart)=\S+", "", case[1])
+        ks = sorted(set(r.range(0, 255) for _ in range(r.pick([3, 6, 12, 40]))) | {255})
+        spin = r.pick(ks)
+        data = {k: (0.0 if k < spin else float(300 + 10 * min(k, r.pick([120, 200, 255])))) for k in ks}
+        first = min(k for k in ks if data[k] > 0)
+        top = max(data.values())
+        mx = min(k for k in ks if data[k] == top)
+        cfg = ""
+        if r.chance(0.4):
+            cfg += f" cmin={r.range(0, mx)}"
+        if r.chance(0.4):
+            cfg += f" cstart={r.range(0, mx)}"
+        if r.chance(0.3):
+            cfg += f" cmax={r.range(first, 255)}"
+        ops += [case[0], new + cfg, "w.attach data=" + streams.float_map_tok(data)] + case[2:]
+    return ops
+
+
 class C02(Prop):
     id = "C02"
     lean_modules = ["Fan2go.Props.C02"]
     fact_modules = ["Fan2go.Props.Facts", "Fan2go.Props.Trans"]
     rule = ("ctrl-stall: neverStop fans (hwmon with configured or measured minimum, file, cmd) x all loops x event lists with "
-            "stall episodes (RPM 0 while the request is unchanged) forced in most lists; ctrl: the general controller stream. "
+            "stall episodes (RPM 0 while the request is unchanged) forced in most lists; ctrl: the general controller stream; ctrl-attach: "
+            "limits installed from measured data on top of the 8 configuration combinations (w.attach), floor recomputed by the oracle. "
             "non-trivial = distinct (kind, configured-min?, loop, number of raises observed (capped), stalled-at-max seen?)")
     assumptions = ["limits inside the quantifier (0 <= min <= max <= 255); the floor is GetMinPwm() + raises so far"]
     streams = [Stream("ctrl-stall", gen_stall, parallel=8),
-               Stream("ctrl", lambda r, tier: ctrl.gen_ctrl(r, tier, n_quick=300, n_thorough=8000), parallel=8)]
+               Stream("ctrl", lambda r, tier: ctrl.gen_ctrl(r, tier, n_quick=300, n_thorough=8000), parallel=8),
+               Stream("ctrl-attach", gen_attach, parallel=8)]
+
+    def oracle_attach(self, ops, go):
+        """the floor is computed from the configuration and the measured data alone: the configured minPwm, else the
+        measured one (= the lowest measured PWM with non-zero RPM; a configured startPwm may stand in for it)"""
+        from .c06 import parse_fmap
+        out = []
+        for cops, cgo in cases(ops, go):
+            if len(cops) < 3 or not cops[2].startswith("w.attach") or not cgo[2].startswith("ok"):
+                continue
+            a = kv(cops[1])
+            data = parse_fmap(kv(cops[2])["data"])
+            measured = min([k for k, v in data.items() if int(v) > 0] or [255])
+            if "cmin" in a:
+                floor0 = int(a["cmin"])
+            elif "cstart" in a:
+                floor0 = min(measured, int(a["cstart"]))
+            else:
+                floor0 = measured
+            st = kv(cgo[2])
+            hi = int(st["max"])
+            if not (0 <= floor0 <= hi <= 255) or not world_ok(cops[1] + f" minp={floor0} maxp={hi}"):
+                continue
+            if int(st["min"]) < floor0:
+                out.append(viol(f"after the limits were derived the fan's minimum is {st['min']}, below the configured / measured minimum {floor0}",
+                                cops, cgo, upto=2))
+                continue
+            for i, op, pre, post in ctrl.walk(cops, cgo):
+                if op.startswith("w.cycle") and post.get("res") == "ok" and post.get("last", "-") != "-" and int(post["last"]) < floor0:
+                    out.append(viol(f"requested PWM {post['last']} below the configured / measured minimum {floor0}", cops, cgo, upto=i))
+                    break
+        return out
 
     def oracle(self, name, ops, go):
         out = []
+        if name == "ctrl-attach":
+            out += self.oracle_attach(ops, go)
         for cops, cgo in cases(ops, go):
             if len(cops) < 2 or not cops[1].startswith("w.new") or not world_ok(cops[1]):
                 continue
             a = kv(cops[1])
             if a.get("ns") != "1":
                 continue
+            if name == "ctrl-attach":
+                # configured and measured limits may contradict each other (minimum above maximum): outside the quantifier
+                st2 = kv(cgo[2]) if len(cgo) > 2 else {}
+                if not (cgo[2].startswith("ok") and 0 <= int(st2.get("min", -1)) <= int(st2.get("max", -1)) <= 255):
+                    continue
             st0 = kv(cgo[1])
             floor_max = int(st0["min"]) + int(st0["off"])
             min0 = int(st0["min"])
